@@ -73,12 +73,13 @@ def lone_surrogate(text):
             elif isinstance(v, list):
                 for x in v:
                     walk(x)
-            elif isinstance(v, dict):
-                for k, x in v.items():
+            elif isinstance(v, _Obj):
+                for k, x in v.pairs:
                     walk(k)
                     walk(x)
         try:
-            walk(json.loads(text))
+            # every pair of every object, also the ones a later duplicate key overrides (doc_canon keeps them all)
+            walk(json.loads(text, object_pairs_hook=_Obj))
         except (ValueError, RecursionError):
             pass
         _SURR_CACHE[text] = found[0]
